@@ -90,6 +90,11 @@ def r1(ctx):
           recv = resolved_text(ev, i, e.node.func.value)
           if recv == 'self.next_sink':
             closed.append(i)
+      ri = [i for i, e in enumerate(ev) if e.kind == 'stmt' and resets(e.node)]
+      ctx.ob('C16.R1', g, 'the failed sink is detached from the pool before it is closed', bool(ri) and bool(closed) and ri[0] < closed[0],
+             'next_sink is reset at event %s, the failed sink is closed at %s: while an underlying Close() yields, a concurrent request still sees the dead sink, closes it again, '
+             'and the two greenlets each create a replacement -- two connections, one of them never closed' % (ri, closed),
+             'at most one underlying connection at a time, also with concurrent requests')
       ctx.ob('C16.R1', g, 'a failed sink is closed before it is replaced', len(closed) == 1 and (not rec or closed[0] < ev.index(rec[0])),
              'closed branch calls Close() on the failed sink %d time(s)' % len(closed),
              'a dropped, unclosed ResurrectorSink keeps its retry greenlet and reconnects: two live connections for one singleton pool, '
